@@ -61,9 +61,25 @@ def expect_only(devs, target, pkt, what, sig):
 def run_flowdemux(case):
     outs = [Rec(f"out{i}") for i in range(case["nouts"])]
     default = Rec("default") if case["default"] else None
-    dm = guarded("C18.no_exception", lambda: FlowDemux(outs, default), "FlowDemux()")
+    grow = case.get("grow") or []          # [[after packet #k, how many outputs to attach, "append"|"replace"], ...]
+    n0 = max(0, len(outs) - sum(g[1] for g in grow))
+    live = list(outs[:n0])
+    dm = guarded("C18.no_exception", lambda: FlowDemux(live, default), "FlowDemux()")
     classes = set()
+    all_outs = outs
     for i, f in enumerate(case["flows"]):
+        for g in grow:
+            if g[0] == i and len(live) < len(all_outs):
+                # outputs are attached to a demux that already exists (ports added to a switch, a list filled after construction)
+                more = all_outs[len(live):len(live) + g[1]]
+                if g[2] == "append":
+                    dm.outs.extend(more)
+                    live = dm.outs
+                else:
+                    live = list(live) + more
+                    dm.outs = live
+                classes.add("outputs attached after construction")
+        outs = list(live)
         pkt = mkpkt(i, f)
         guarded("C18.no_exception", lambda: dm.put(pkt), f"FlowDemux.put(flow {f}) outs={case['nouts']} default={case['default']}")
         if f < len(outs):
@@ -75,7 +91,7 @@ def run_flowdemux(case):
         else:
             target = None
             classes.add("miss without default")
-        expect_only(outs + ([default] if default else []), target, pkt, "FlowDemux", "flowdemux")
+        expect_only(all_outs + ([default] if default else []), target, pkt, "FlowDemux", "flowdemux")
     return {"nontrivial": len(classes) >= 2, "classes": sorted(classes)}
 
 
@@ -548,8 +564,10 @@ def run_e2e(case):
 
 # ------------------------------------------------------------------------------------------- strategies
 def flowdemux_strategy(tier):
+    grow = st.lists(st.tuples(st.integers(0, 5), st.integers(1, 2), st.sampled_from(["append", "replace"])).map(list), max_size=2)
     return st.fixed_dictionaries({"nouts": st.integers(0, 5), "default": st.booleans(),
-                                  "flows": st.lists(st.integers(0, 8), min_size=1, max_size=8)})
+                                  "flows": st.lists(st.integers(0, 8), min_size=1, max_size=8),
+                                  "grow": kgen.weighted([(st.just([]), 2), (grow, 1)])})
 
 
 def flowdemux_exhaustive(tier, shard, nshards):
